@@ -956,6 +956,16 @@ def run_copy(case):
         dd = diff_obs(snap, observe(obj, name))
         if dd:
             return True, default, "mutating the %s changed the source: %s" % ("deep copy" if deep else "copy's attributes", _fmt(dd))
+        # history: a copy taken after an earlier copy was made and mutated is again a fresh object equal to the source
+        # (the result of a copy operation is a function of the source alone, not of earlier calls)
+        mk = {"copy": lambda: obj.copy(), "copy.copy": lambda: copy.copy(obj), "deepcopy": lambda: obj.deepcopy(),
+              "copy.deepcopy": lambda: copy.deepcopy(obj), "deepcopy-memo": lambda: obj.deepcopy({})}[how]
+        cp2 = mk()
+        if cp2 is cp or cp2 is obj:
+            return True, default, "a second %s of the same source returned %s" % (how, "the earlier copy" if cp2 is cp else "the source itself")
+        dd = diff_obs(snap, observe(cp2, name))
+        if dd:
+            return True, default, "a %s taken after an earlier copy was mutated is not equal to its source: %s" % (how, _fmt(dd))
         if name == "G_E_Phenotyping" and deep:
             g0 = build(case["spec"]).gpmod
             dd = diff_obs(observe(g0, type(g0).__name__), observe(obj.gpmod, type(g0).__name__))
